@@ -276,6 +276,12 @@ open Sm.Py
 /-- what the manifest reader can raise besides what the `literal_eval` oracle raises -/
 def manifestOwnClasses : List Cls := [.ValueError, .TypeError, .CsvError, .UnicodeDecodeError]
 
+/-- what the with_abundance conversion lets out when the classes in `caught` are wrapped into ValueError -/
+def litEscapes (caught : List Cls) : List Cls := .ValueError :: litClasses.filter (fun c => !caught.contains c)
+
+def manifestClassesV (caught : List Cls) : List Cls := manifestOwnClasses ++ litEscapes caught
+
+/-- the classes of the bare call (before the repair of C20.2) -/
 def manifestClasses : List Cls := manifestOwnClasses ++ litClasses
 
 /-- the oracle stays inside the documented exception range of `ast.literal_eval` -/
@@ -324,7 +330,8 @@ theorem intCell_within {v : Option Cell} : Within [.ValueError, .TypeError] (int
   | none => exact Within.raise (by simp)
   | some c => exact (pyIntStr_within c).mono (by simp_all)
 
-theorem boolCell_within {lit : Cell → Lit} (hl : LitOk lit) {v : Option Cell} : Within litClasses (boolCell lit (some v)) := by
+theorem boolCell_within {caught : List Cls} {lit : Cell → Lit} (hl : LitOk lit) {v : Option Cell} :
+    Within (litEscapes caught) (boolCell caught lit (some v)) := by
   cases v with
   | none => exact Within.pure _
   | some c =>
@@ -332,14 +339,20 @@ theorem boolCell_within {lit : Cell → Lit} (hl : LitOk lit) {v : Option Cell} 
     split
     · exact Within.pure _
     · rename_i c' hc
-      exact Within.raise (hl c c' hc)
+      split
+      · exact Within.raise (by simp [litEscapes])
+      · rename_i hn
+        refine Within.raise ?_
+        unfold litEscapes
+        refine List.mem_cons_of_mem _ (List.mem_filter.2 ⟨hl c c' hc, ?_⟩)
+        simpa using hn
     · exact Within.decline _
 
 theorem intCols_required : ∀ k ∈ intCols, k ∈ requiredKeys := by decide
 theorem boolCol_required : boolCol ∈ requiredKeys := by decide
 
-theorem convertRow_within {lit : Cell → Lit} (hl : LitOk lit) {fields : List Cell} (hf : missingKey fields = false) (row : Row) :
-    Within manifestClasses (convertRow lit fields row) := by
+theorem convertRow_within {caught : List Cls} {lit : Cell → Lit} (hl : LitOk lit) {fields : List Cell} (hf : missingKey fields = false) (row : Row) :
+    Within (manifestClassesV caught) (convertRow caught lit fields row) := by
   unfold convertRow
   split
   · rename_i c1 c2 c3 c4 hcols
@@ -351,19 +364,27 @@ theorem convertRow_within {lit : Cell → Lit} (hl : LitOk lit) {fields : List C
     obtain ⟨v4, h4⟩ := cellOf_isSome (hmem c4 (by simp)) row
     obtain ⟨vb, hb⟩ := cellOf_isSome (missingKey_false hf boolCol_required) row
     rw [h1, h2, h3, h4, hb]
-    refine Within.bind (intCell_within.mono (by simp_all [manifestClasses, manifestOwnClasses])) fun _ _ => ?_
-    refine Within.bind (intCell_within.mono (by simp_all [manifestClasses, manifestOwnClasses])) fun _ _ => ?_
-    refine Within.bind (intCell_within.mono (by simp_all [manifestClasses, manifestOwnClasses])) fun _ _ => ?_
-    refine Within.bind (intCell_within.mono (by simp_all [manifestClasses, manifestOwnClasses])) fun _ _ => ?_
-    refine Within.bind ((boolCell_within hl).mono (by simp_all [manifestClasses])) fun _ _ => Within.pure _
+    have hown : ∀ c, c ∈ [Cls.ValueError, Cls.TypeError] → c ∈ manifestClassesV caught := by
+      intro c h
+      unfold manifestClassesV manifestOwnClasses
+      simp at h
+      rcases h with rfl | rfl <;> simp
+    refine Within.bind (intCell_within.mono hown) fun _ _ => ?_
+    refine Within.bind (intCell_within.mono hown) fun _ _ => ?_
+    refine Within.bind (intCell_within.mono hown) fun _ _ => ?_
+    refine Within.bind (intCell_within.mono hown) fun _ _ => ?_
+    refine Within.bind ((boolCell_within hl).mono (by intro c h; unfold manifestClassesV; exact List.mem_append.2 (Or.inr h))) fun _ _ => Within.pure _
   · exact Within.decline _
 
-theorem tailStop_within {t : Tail} {c : Cls} (h : t.stop = some c) : c ∈ manifestClasses := by
-  cases t <;> simp [Tail.stop] at h <;> subst h <;> simp [manifestClasses, manifestOwnClasses]
+/-- the classes the byte stream under a CSV document hands in (a gzip stream that fails) -/
+def docIo (doc : CsvDoc) : List Cls := doc.first.io ++ doc.tail.io
 
-theorem loadRows_within {lit : Cell → Lit} (hl : LitOk lit) {fields : List Cell} (hf : missingKey fields = false)
+theorem tailStop_within {caught : List Cls} {t : Tail} {c : Cls} (h : t.stop = some c) : c ∈ manifestClassesV caught ++ t.io := by
+  cases t <;> simp [Tail.stop] at h <;> subst h <;> simp [manifestClassesV, manifestOwnClasses, Tail.io]
+
+theorem loadRows_within {caught : List Cls} {lit : Cell → Lit} (hl : LitOk lit) {fields : List Cell} (hf : missingKey fields = false)
     (tail : Tail) (rows : List Row) (acc : List MfRow) (w : Nat) :
-    Within manifestClasses (loadRows lit fields tail rows acc w).res := by
+    Within (manifestClassesV caught ++ tail.io) (loadRows caught lit fields tail rows acc w).res := by
   induction rows generalizing acc w with
   | nil =>
     unfold loadRows
@@ -379,7 +400,7 @@ theorem loadRows_within {lit : Cell → Lit} (hl : LitOk lit) {fields : List Cel
       split
       · exact ih _ _
       · rename_i e he
-        exact (convertRow_within hl hf _).of_error he
+        exact ((convertRow_within hl hf _).mono (fun c h => List.mem_append.2 (Or.inl h))).of_error he
 
 theorem versionIsOne_within (v : List Char) : Within [] (versionIsOne v) := by
   unfold versionIsOne
@@ -388,31 +409,60 @@ theorem versionIsOne_within (v : List Char) : Within [] (versionIsOne v) := by
   · exact Within.pure _
   · exact Within.decline _
 
-theorem loadManifest_within {lit : Cell → Lit} (hl : LitOk lit) (doc : CsvDoc) :
-    Within manifestClasses (loadManifest lit doc).res := by
-  unfold loadManifest
+theorem loadManifestV_within {caught : List Cls} {lit : Cell → Lit} (hl : LitOk lit) (doc : CsvDoc) :
+    Within (manifestClassesV caught ++ docIo doc) (loadManifestV caught lit doc).res := by
+  have own : ∀ c, c ∈ manifestOwnClasses → c ∈ manifestClassesV caught ++ docIo doc :=
+    fun c h => List.mem_append.2 (Or.inl (List.mem_append.2 (Or.inl h)))
+  have tl : ∀ c, c ∈ manifestClassesV caught ++ doc.tail.io → c ∈ manifestClassesV caught ++ docIo doc := by
+    intro c h
+    rcases List.mem_append.1 h with h | h
+    · exact List.mem_append.2 (Or.inl h)
+    · exact List.mem_append.2 (Or.inr (List.mem_append.2 (Or.inr h)))
+  unfold loadManifestV
   split
-  · exact Within.raise (by simp [manifestClasses, manifestOwnClasses])
+  · exact Within.raise (own _ (by simp [manifestOwnClasses]))
+  · rename_i c hc
+    exact Within.raise (List.mem_append.2 (Or.inr (List.mem_append.2 (Or.inl (by simp [FirstLine.io, hc])))))
   · simp only []
     split
     · exact Within.decline _
     split
-    · exact Within.raise (by simp [manifestClasses, manifestOwnClasses])
+    · exact Within.raise (own _ (by simp [manifestOwnClasses]))
     split
     · rename_i e he
       exact ((versionIsOne_within _).mono (by simp)).of_error he
-    · exact Within.raise (by simp [manifestClasses, manifestOwnClasses])
+    · exact Within.raise (own _ (by simp [manifestOwnClasses]))
     · split
       · split
-        · exact Within.raise (by simp [manifestClasses, manifestOwnClasses])
+        · exact Within.raise (own _ (by simp [manifestOwnClasses]))
         · rename_i c hc
-          exact Within.raise (tailStop_within hc)
+          exact Within.raise (tl _ (tailStop_within hc))
       · split
-        · exact Within.raise (by simp [manifestClasses, manifestOwnClasses])
+        · exact Within.raise (own _ (by simp [manifestOwnClasses]))
         · split
-          · exact Within.raise (by simp [manifestClasses, manifestOwnClasses])
+          · exact Within.raise (own _ (by simp [manifestOwnClasses]))
           · rename_i hmk
-            exact loadRows_within hl (by simpa using hmk) _ _ _ _
+            exact (loadRows_within hl (by simpa using hmk) _ _ _ _).mono tl
+
+/-- whatever list is wrapped, nothing outside the classes of the bare call can appear -/
+theorem manifestClassesV_sub (caught : List Cls) : ∀ c, c ∈ manifestClassesV caught → c ∈ manifestClasses := by
+  intro c h
+  unfold manifestClassesV at h
+  unfold manifestClasses
+  rcases List.mem_append.1 h with h | h
+  · exact List.mem_append.2 (Or.inl h)
+  · unfold litEscapes at h
+    rcases List.mem_cons.1 h with rfl | h
+    · simp [litClasses]
+    · exact List.mem_append.2 (Or.inr (List.mem_filter.1 h).1)
+
+theorem loadManifest_within {lit : Cell → Lit} (hl : LitOk lit) (doc : CsvDoc) :
+    Within (manifestClasses ++ docIo doc) (loadManifest lit doc).res :=
+  (loadManifestV_within (caught := litCaught) hl doc).mono (by
+    intro c h
+    rcases List.mem_append.1 h with h | h
+    · exact List.mem_append.2 (Or.inl (manifestClassesV_sub _ c h))
+    · exact List.mem_append.2 (Or.inr h))
 
 end Sm.CsvR
 
@@ -462,11 +512,15 @@ theorem csvRowValue_within (pl : Picklist) (fields : List Cell) (row : Row) :
     Within [.KeyError, .AttributeError, .TypeError] (csvRowValue pl fields row) := by
   within_cases csvRowValue
 
-theorem tailStop_pick {t : Tail} {c : Cls} (h : t.stop = some c) : c ∈ picklistClasses := by
-  cases t <;> simp [Tail.stop] at h <;> subst h <;> simp [picklistClasses]
+/-- what the byte stream under a pickfile hands in: the gzip probe's own failure, a gzip stream failing later -/
+def pickIo (doc : PickDoc) : List Cls :=
+  (match doc.sniff with | some c => [c] | none => []) ++ doc.first.io ++ doc.tailRest.io ++ doc.tailAll.io
+
+theorem tailStop_pick {t : Tail} {c : Cls} (h : t.stop = some c) : c ∈ picklistClasses ++ t.io := by
+  cases t <;> simp [Tail.stop] at h <;> subst h <;> simp [picklistClasses, Tail.io]
 
 theorem pickRows_within (pl : Picklist) (fields : List Cell) (tail : Tail) (rows : List Row) (acc : PickResult) (w : Nat) :
-    Within picklistClasses (pickRows pl fields tail rows acc w).res := by
+    Within (picklistClasses ++ tail.io) (pickRows pl fields tail rows acc w).res := by
   induction rows generalizing acc w with
   | nil =>
     unfold pickRows
@@ -480,37 +534,72 @@ theorem pickRows_within (pl : Picklist) (fields : List Cell) (tail : Tail) (rows
       unfold pickRows
       split
       · rename_i e he
-        exact ((csvRowValue_within pl fields _).mono (by simp_all [picklistClasses])).of_error he
+        exact ((csvRowValue_within pl fields _).mono (by intro c h; apply List.mem_append.2; left; simp_all [picklistClasses])).of_error he
       · exact ih _ _
       · split <;> exact ih _ _
 
-theorem pickBody_within (doc : PickDoc) : Within picklistClasses (pickBody doc) := by
+theorem pickBody_within (doc : PickDoc) : Within (picklistClasses ++ doc.first.io) (pickBody doc) := by
   unfold pickBody
   split
   · split
     · exact Within.raise (by simp [picklistClasses])
+    · rename_i c hc
+      exact Within.raise (by simp [FirstLine.io, hc])
     · split
       · exact Within.pure _
       · exact Within.raise (by simp [picklistClasses])
   · exact Within.pure _
 
-theorem loadPicklist_within (pl : Picklist) (doc : PickDoc) : Within picklistClasses (loadPicklist pl doc).res := by
-  unfold loadPicklist
+theorem pickBody_tail {doc : PickDoc} {rows : List Row} {tail : Tail} (h : pickBody doc = .ok (rows, tail)) :
+    tail = doc.tailRest ∨ tail = doc.tailAll := by
+  unfold pickBody at h
+  split at h
+  · split at h
+    · simp [raise] at h
+    · simp [raise] at h
+    · split at h
+      · simp [pure, Except.pure] at h; exact Or.inl h.2.symm
+      · simp [raise] at h
+  · simp [pure, Except.pure] at h; exact Or.inr h.2.symm
+
+theorem loadPicklistV_within (incr : Bool) (pl : Picklist) (doc : PickDoc) :
+    Within (picklistClasses ++ pickIo doc) (loadPicklistV incr pl doc).res := by
+  have own : ∀ c, c ∈ picklistClasses → c ∈ picklistClasses ++ pickIo doc := fun c h => List.mem_append.2 (Or.inl h)
+  unfold loadPicklistV
   split
-  · exact Within.raise (by simp [picklistClasses])
+  · exact Within.raise (own _ (by simp [picklistClasses]))
   split
-  · exact Within.raise (by simp [picklistClasses])
+  · rename_i c hc
+    exact Within.raise (List.mem_append.2 (Or.inr (by simp [pickIo, hc])))
   split
-  · rename_i e he; exact (pickBody_within doc).of_error he
-  · split
+  · exact Within.raise (own _ (by simp [picklistClasses]))
+  split
+  · rename_i e he
+    exact ((pickBody_within doc).mono (by
+      intro c h
+      rcases List.mem_append.1 h with h | h
+      · exact own c h
+      · exact List.mem_append.2 (Or.inr (by simp [pickIo, h])))).of_error he
+  · rename_i rows tail hb
+    have htl : ∀ c, c ∈ picklistClasses ++ tail.io → c ∈ picklistClasses ++ pickIo doc := by
+      intro c h
+      rcases List.mem_append.1 h with h | h
+      · exact own c h
+      · rcases pickBody_tail hb with rfl | rfl
+        · exact List.mem_append.2 (Or.inr (by simp [pickIo, h]))
+        · exact List.mem_append.2 (Or.inr (by simp [pickIo, h]))
+    split
     · split
-      · exact Within.raise (by simp [picklistClasses])
-      · rename_i c hc; exact Within.raise (tailStop_pick hc)
+      · exact Within.raise (own _ (by simp [picklistClasses]))
+      · rename_i c hc; exact Within.raise (htl _ (tailStop_pick hc))
     · split
-      · exact Within.raise (by simp [picklistClasses])
+      · exact Within.raise (own _ (by simp [picklistClasses]))
       · split
-        · exact Within.raise (by simp [picklistClasses])
-        · exact pickRows_within _ _ _ _ _ _
+        · exact Within.raise (own _ (by simp [picklistClasses]))
+        · exact (pickRows_within _ _ _ _ _ _).mono htl
+
+theorem loadPicklist_within (pl : Picklist) (doc : PickDoc) : Within (picklistClasses ++ pickIo doc) (loadPicklist pl doc).res :=
+  loadPicklistV_within _ pl doc
 
 end Sm.CsvR
 
@@ -528,9 +617,11 @@ def sbtOwnClasses : List Cls :=
 /-- classes the file system hands in (a failing `os.makedirs`, an unreadable manifest path) -/
 def envClasses (f : SbtFile) : List Cls :=
   (match f.mkdirExc with | some c => [c] | none => []) ++
-  (match f.manifest with | .fs (.unreadable c) => [c] | _ => [])
+  (match f.manifest with | .fs (.unreadable c) => [c] | .content csv => docIo csv | _ => []) ++
+  (match f.zip with | .raises c => [c] | _ => []) ++
+  (match f.openExc with | some c => [c] | none => [])
 
-def sbtClasses (f : SbtFile) : List Cls := sbtOwnClasses ++ envClasses f ++ manifestClasses
+def sbtClasses (f : SbtFile) : List Cls := sbtOwnClasses ++ envClasses f ++ manifestClassesV litCaught
 
 theorem own_sub (f : SbtFile) : ∀ c, c ∈ sbtOwnClasses → c ∈ sbtClasses f := fun c h => by
   unfold sbtClasses; simp [h]
@@ -721,6 +812,7 @@ theorem attachManifest_within {lit : Cell → Lit} (hl : LitOk lit) (f : SbtFile
     Within (sbtClasses f) (attachManifest lit f p).res := by
   unfold attachManifest
   split
+  · split <;> exact Within.raise (own_sub f _ (by simp [sbtOwnClasses]))
   · split
     · exact Within.raise (own_sub f _ (by simp [sbtOwnClasses]))
     · exact Within.raise (own_sub f _ (by simp [sbtOwnClasses]))
@@ -730,7 +822,14 @@ theorem attachManifest_within {lit : Cell → Lit} (hl : LitOk lit) (f : SbtFile
     · exact Within.raise (own_sub f _ (by simp [sbtOwnClasses]))
     · split
       · rename_i e he
-        exact ((loadManifest_within hl _).mono (by intro c h; unfold sbtClasses; simp [h])).of_error he
+        rename_i csv hcsv _
+        exact ((loadManifestV_within (caught := litCaught) hl _).mono (by
+          intro c h
+          unfold sbtClasses
+          rcases List.mem_append.1 h with h | h
+          · simp [h]
+          · have : c ∈ envClasses f := by simp [envClasses, hcsv, h]
+            simp [this])).of_error he
       · exact Within.pure _
   · exact Within.raise (own_sub f _ (by simp [sbtOwnClasses]))
 
@@ -770,6 +869,14 @@ theorem loadSbtDoc_within {lit : Cell → Lit} (hl : LitOk lit) (f : SbtFile) (d
 theorem loadSbt_within {lit : Cell → Lit} (hl : LitOk lit) (f : SbtFile) : Within (sbtClasses f) (loadSbt lit f).res := by
   unfold loadSbt
   split
+  · rename_i c hc
+    exact Within.raise (by unfold sbtClasses; simp [envClasses, hc])
+  split
+  · rename_i c hc
+    split
+    · exact Within.raise (own_sub f _ (by simp [sbtOwnClasses]))
+    · exact Within.raise (by unfold sbtClasses; simp [envClasses, hc])
+  split
   any_goals exact Within.raise (own_sub f _ (by simp [sbtOwnClasses]))
   exact loadSbtDoc_within hl f _
 
@@ -781,8 +888,8 @@ namespace Sm.CsvR
 
 open Sm.Py
 
-theorem loadRows_work (lit : Cell → Lit) (fields : List Cell) (tail : Tail) (rows : List Row) (acc : List MfRow) (w : Nat) :
-    (loadRows lit fields tail rows acc w).work ≤ w + rows.length + 1 := by
+theorem loadRows_work (caught : List Cls) (lit : Cell → Lit) (fields : List Cell) (tail : Tail) (rows : List Row) (acc : List MfRow) (w : Nat) :
+    (loadRows caught lit fields tail rows acc w).work ≤ w + rows.length + 1 := by
   induction rows generalizing acc w with
   | nil => unfold loadRows; split <;> simp
   | cons r rest ih =>
@@ -800,10 +907,11 @@ theorem loadRows_work (lit : Cell → Lit) (fields : List Cell) (tail : Tail) (r
       · simp only [List.length_cons]; omega
 
 /-- the manifest reader makes at most one pass over the rows (plus the fixed header checks) -/
-theorem loadManifest_work (lit : Cell → Lit) (doc : CsvDoc) :
-    (loadManifest lit doc).work ≤ doc.rows.length + requiredKeys.length + 2 := by
-  unfold loadManifest
+theorem loadManifestV_work (caught : List Cls) (lit : Cell → Lit) (doc : CsvDoc) :
+    (loadManifestV caught lit doc).work ≤ doc.rows.length + requiredKeys.length + 2 := by
+  unfold loadManifestV
   split
+  · simp
   · simp
   · simp only []
     split
@@ -820,8 +928,12 @@ theorem loadManifest_work (lit : Cell → Lit) (doc : CsvDoc) :
         · simp
         · split
           · simp [hrows]; omega
-          · have := loadRows_work lit fields doc.tail rest [] (1 + requiredKeys.length)
+          · have := loadRows_work caught lit fields doc.tail rest [] (1 + requiredKeys.length)
             simp [hrows]; omega
+
+theorem loadManifest_work (lit : Cell → Lit) (doc : CsvDoc) :
+    (loadManifest lit doc).work ≤ doc.rows.length + requiredKeys.length + 2 :=
+  loadManifestV_work _ lit doc
 
 theorem pickRows_work (pl : Picklist) (fields : List Cell) (tail : Tail) (rows : List Row) (acc : PickResult) (w : Nat) :
     (pickRows pl fields tail rows acc w).work ≤ w + rows.length + 1 := by
@@ -853,15 +965,18 @@ theorem pickBody_rows {doc : PickDoc} {rows : List Row} {tail : Tail} (h : pickB
   split at h
   · split at h
     · simp [raise] at h
+    · simp [raise] at h
     · split at h
       · simp [pure, Except.pure] at h; rw [← h.1]; omega
       · simp [raise] at h
   · simp [pure, Except.pure] at h; rw [← h.1]; omega
 
 /-- the picklist reader makes at most one pass over the rows -/
-theorem loadPicklist_work (pl : Picklist) (doc : PickDoc) :
-    (loadPicklist pl doc).work ≤ doc.rowsRest.length + doc.rowsAll.length + 2 := by
-  unfold loadPicklist
+theorem loadPicklistV_work (incr : Bool) (pl : Picklist) (doc : PickDoc) :
+    (loadPicklistV incr pl doc).work ≤ doc.rowsRest.length + doc.rowsAll.length + 2 := by
+  unfold loadPicklistV
+  split
+  · simp
   split
   · simp
   split
@@ -880,6 +995,10 @@ theorem loadPicklist_work (pl : Picklist) (doc : PickDoc) :
         · have := pickRows_work pl fields tail rest ⟨0, [], []⟩ 1
           simp only [List.length_cons] at hlen
           omega
+
+theorem loadPicklist_work (pl : Picklist) (doc : PickDoc) :
+    (loadPicklist pl doc).work ≤ doc.rowsRest.length + doc.rowsAll.length + 2 :=
+  loadPicklistV_work _ pl doc
 
 end Sm.CsvR
 
@@ -1187,6 +1306,7 @@ theorem attachManifest_work (lit : Cell → Lit) (f : SbtFile) (p : J) :
     (attachManifest lit f p).work ≤ manifestPart f := by
   unfold attachManifest
   split
+  · split <;> simp
   · split
     any_goals simp
     rename_i csv hcsv
@@ -1238,10 +1358,10 @@ open Sm.Py
 open Sm.JsonR (bind_ok)
 
 /-- every loaded row is the conversion of a non-blank data row, in order, and the reader saw the end of the file -/
-theorem loadRows_ok {lit : Cell → Lit} {fields : List Cell} {tail : Tail} (rows : List Row) (acc : List MfRow) (w : Nat)
-    {out : List MfRow} (h : (loadRows lit fields tail rows acc w).res = .ok out) :
+theorem loadRows_ok {caught : List Cls} {lit : Cell → Lit} {fields : List Cell} {tail : Tail} (rows : List Row) (acc : List MfRow) (w : Nat)
+    {out : List MfRow} (h : (loadRows caught lit fields tail rows acc w).res = .ok out) :
     tail = .eof ∧ ∃ ms, out = acc.reverse ++ ms ∧
-      (rows.filter (fun r => !r.isEmpty)).map (convertRow lit fields) = ms.map Except.ok := by
+      (rows.filter (fun r => !r.isEmpty)).map (convertRow caught lit fields) = ms.map Except.ok := by
   induction rows generalizing acc w with
   | nil =>
     unfold loadRows at h
@@ -1268,11 +1388,12 @@ theorem loadRows_ok {lit : Cell → Lit} {fields : List Cell} {tail : Tail} (row
 
 /-- **an accepted manifest**: the header carries every required column, the reader reached the end of the
     file without a decoder or csv error, and the result is exactly the conversion of the non-blank data rows -/
-theorem loadManifest_ok {lit : Cell → Lit} {doc : CsvDoc} {out : List MfRow} (h : (loadManifest lit doc).res = .ok out) :
+theorem loadManifest_ok {caught : List Cls} {lit : Cell → Lit} {doc : CsvDoc} {out : List MfRow} (h : (loadManifestV caught lit doc).res = .ok out) :
     ∃ fields rest, doc.rows = fields :: rest ∧ missingKey fields = false ∧ doc.tail = .eof ∧
-      (rest.filter (fun r => !r.isEmpty)).map (convertRow lit fields) = out.map Except.ok := by
-  unfold loadManifest at h
+      (rest.filter (fun r => !r.isEmpty)).map (convertRow caught lit fields) = out.map Except.ok := by
+  unfold loadManifestV at h
   split at h
+  · simp [raise] at h
   · simp [raise] at h
   · simp only [] at h
     split at h
@@ -1301,7 +1422,7 @@ theorem intCell_ok {v : Option (Option Cell)} {i : Int} (h : intCell v = .ok i) 
   · exact ⟨_, rfl, h⟩
 
 /-- in an accepted row the four integer columns are present as cells (not `None`) and parse as Python ints -/
-theorem convertRow_ok {lit : Cell → Lit} {fields : List Cell} {row : Row} {m : MfRow} (h : convertRow lit fields row = .ok m) :
+theorem convertRow_ok {caught : List Cls} {lit : Cell → Lit} {fields : List Cell} {row : Row} {m : MfRow} (h : convertRow caught lit fields row = .ok m) :
     ∀ k ∈ intCols, ∃ c i, cellOf fields row k = some (some c) ∧ pyIntStr c = .ok i := by
   unfold convertRow at h
   split at h
